@@ -70,8 +70,10 @@
 (*                                                                         *)
 (* ENUMERATION.  All histories of DEPTH actions after the first base, the  *)
 (* holder kind of the first action drawn from KINDS1, of the later ones    *)
-(* from KINDSR; KEEP1 / KEEP2 / KEEPR (per mille) thin the choices of the  *)
-(* 1st / 2nd / later actions with a SEED-dependent hash (1000 = all).      *)
+(* from KINDSR; KEEP1 / KEEP2 / KEEPR (per mille, 1000 = all) thin the     *)
+(* choices of the 1st / 2nd / later actions with a SEED-dependent hash:    *)
+(* first the heads (action, aliases, holder kind), then the operations and *)
+(* vias of every kept "upd" head.                                          *)
 (*                                                                         *)
 (* NAMED DEVIATIONS adopted (documented behaviour of Steel, as in          *)
 (* Collections.tla):                                                       *)
@@ -360,50 +362,57 @@ Xfers(srcTh, kind) == IF srcTh = 0 /\ Th(kind) = 1 THEN (IF Spawned THEN {"chan"
 
 Choice(a, i, i2, b, kind, via, xfer, op) ==
   [a |-> a, i |-> i, i2 |-> i2, b |-> b, kind |-> kind, via |-> via, xfer |-> xfer, op |-> op]
-KindsAt(n) == IF n = 1 THEN KINDS1 ELSE KINDSR
+KindsAt(n) == (IF n = 1 THEN KINDS1 ELSE KINDSR) \ {"P"}
 Keep(n) == IF n = 1 THEN KEEP1 ELSE IF n = 2 THEN KEEP2 ELSE KEEPR
-\* via "k" re-executes the binding of the result: keep it on the engine thread
-ViasFor(i, op, kind) == {v \in VIAS : /\ (v = "k" => HasArg(ty, op.o) /\ Th(al[i].kind) = 0 /\ Th(kind) = 0)}
 
-ActChoices(n) ==
+(* The choices of the next action are generated in two levels: HEADS (which action, through which   *)
+(* alias(es), holder kind of the result, how it crosses threads) and, for "upd", TAILS (operation    *)
+(* and via).                                                                                         *)
+SrcTh(a, i) == IF a = "base" THEN 0 ELSE Th(al[i].kind)
+Heads(n) ==
      (IF "base" \in ACTS /\ NBases < MAXBASE
-      THEN {Choice("base", 0, 0, b, kd, "-", x, NoOp) : b \in 1..Len(Bases[ty]), kd \in KindsAt(n) \ {"P"}, x \in {"chan", "capt", "-"}}
+      THEN UNION {{Choice("base", 0, 0, b, kd, "-", x, NoOp) : b \in 1..Len(Bases[ty]), x \in Xfers(0, kd)} : kd \in KindsAt(n)}
       ELSE {})
   \cup (IF "share" \in ACTS
-        THEN {Choice("share", i, 0, 0, kd, "-", x, NoOp) : i \in Sources, kd \in KindsAt(n) \ {"P"}, x \in {"chan", "capt", "-"}}
+        THEN UNION {UNION {{Choice("share", i, 0, 0, kd, "-", x, NoOp) : x \in Xfers(Th(al[i].kind), kd)}
+                           : kd \in {q \in KindsAt(n) : ~(al[i].kind \in {"M", "WM"} /\ q = al[i].kind)}}   \* not a mere renaming
+                    : i \in Sources}
         ELSE {})
   \cup (IF "upd" \in ACTS
-        THEN UNION {UNION {{Choice("upd", i, 0, 0, kd, v, x, op) : v \in ViasFor(i, op, kd), x \in {"chan", "capt", "-"}}
-                           : op \in Ops(al[i].v), kd \in KindsAt(n) \ {"P"}}
+        THEN UNION {UNION {{Choice("upd", i, 0, 0, kd, "-", x, NoOp) : x \in Xfers(Th(al[i].kind), kd)} : kd \in KindsAt(n)}
                     : i \in Sources}
         ELSE {})
   \cup (IF "upd2" \in ACTS
-        THEN {Choice("upd2", i, i2, 0, kd, "d", x, NoOp) : i \in Sources, i2 \in Sources, kd \in KindsAt(n) \ {"P"}, x \in {"chan", "capt", "-"}}
+        THEN UNION {UNION {UNION {{Choice("upd2", i, i2, 0, kd, "d", x, NoOp) : x \in Xfers(Th(al[i].kind), kd)} : kd \in KindsAt(n)}
+                           : i2 \in {q \in Sources : /\ Th(al[q].kind) = Th(al[i].kind)
+                                                     /\ (q = i => ~SingleUse(al[i].kind))     \* a moved local can be read once
+                                                     /\ Size(al[i].v) + Size(al[q].v) <= 2 * MAXLEN}}
+                    : i \in Sources}
         ELSE {})
   \cup (IF "reobs" \in ACTS
         THEN {Choice("reobs", i, 0, 0, "-", "-", "-", NoOp) : i \in {j \in 1..Len(al) : Live(al[j])}}
         ELSE {})
+\* via "k" re-executes the binding of the result: it stays on the engine thread, and the result is not a K holder
+ViasFor(i, op, kind) == {v \in VIAS : v = "k" => (HasArg(ty, op.o) /\ Th(al[i].kind) = 0 /\ Th(kind) = 0 /\ kind # "K")}
+Tails(h) == UNION {{[h EXCEPT !.op = op, !.via = v] : v \in ViasFor(h.i, op, h.kind)} : op \in Ops(al[h.i].v)}
 
-\* well-formedness of a choice in the current state
-SrcTh(ch) == IF ch.a = "base" THEN 0 ELSE Th(al[ch.i].kind)
-Legal(ch) ==
-  /\ ch.a \in {"base", "share", "upd", "upd2"} => ch.xfer \in Xfers(SrcTh(ch), ch.kind)
-  /\ ch.a = "upd" => ch.op \in Ops(al[ch.i].v)
-  /\ ch.a = "upd2" => /\ Th(al[ch.i].kind) = Th(al[ch.i2].kind)
-                      /\ (ch.i = ch.i2 => ~SingleUse(al[ch.i].kind))     \* a moved local can be read once
-                      /\ Size(al[ch.i].v) + Size(al[ch.i2].v) <= 2 * MAXLEN
-  /\ ch.a = "share" => ~(al[ch.i].kind \in {"M", "WM"} /\ ch.kind = al[ch.i].kind)              \* a mere renaming
-
-\* seeded thinning
+\* seeded thinning: Keep(n) per mille of the heads, and of the tails of every kept "upd" head
 Mx(a, b) == (a * 251 + b) % 9973
-IdxIn(seq, x) == CHOOSE i \in 1..Len(seq) : seq[i] = x
-KindSeq == <<"-", "G", "P", "L", "M", "B", "C", "EL", "EP", "EV", "EI", "EH", "ES", "K", "WL", "WM">>
-OpNames == <<"-", "ins", "rem", "unionR", "unionL", "clear", "push", "pushf", "set", "rest", "take", "drop", "appR", "appL",
-             "cons", "pushb", "cdr", "rev", "ldrop", "ltail", "pushs", "up", "sub">>
-CCode(ch) == Mx(Mx(Mx(Mx(Mx(Mx(IdxIn(<<"base", "share", "upd", "upd2", "reobs">>, ch.a), ch.i), ch.i2 + ch.b),
-                          IdxIn(KindSeq, ch.kind)), IdxIn(<<"-", "d", "f", "g", "k">>, ch.via) + 7 * IdxIn(<<"-", "chan", "capt">>, ch.xfer)),
-                 IdxIn(OpNames, ch.op.o)), ch.op.a + 3 * ch.op.b)
-Offered(n) == {ch \in ActChoices(n) : Legal(ch) /\ (Keep(n) >= 1000 \/ (Mx(Mx(code, CCode(ch)), 4001) % 1000) < Keep(n))}
+KindIdx == [G |-> 1, P |-> 2, L |-> 3, M |-> 4, B |-> 5, C |-> 6, EL |-> 7, EP |-> 8, EV |-> 9, EI |-> 10, EH |-> 11,
+            ES |-> 12, K |-> 13, WL |-> 14, WM |-> 15]
+KindCode(kd) == IF kd = "-" THEN 0 ELSE KindIdx[kd]
+ActCode(a) == CASE a = "base" -> 1 [] a = "share" -> 2 [] a = "upd" -> 3 [] a = "upd2" -> 4 [] a = "reobs" -> 5
+XferCode(x) == CASE x = "-" -> 0 [] x = "chan" -> 1 [] x = "capt" -> 2
+ViaCode(v) == CASE v = "-" -> 0 [] v = "d" -> 1 [] v = "f" -> 2 [] v = "g" -> 3 [] v = "k" -> 4
+OpIdx == [ins |-> 1, rem |-> 2, unionR |-> 3, unionL |-> 4, clear |-> 5, push |-> 6, pushf |-> 7, set |-> 8, rest |-> 9,
+          take |-> 10, drop |-> 11, appR |-> 12, appL |-> 13, cons |-> 14, pushb |-> 15, cdr |-> 16, rev |-> 17, ldrop |-> 18,
+          ltail |-> 19, pushs |-> 20, up |-> 21, sub |-> 22]
+OpCode(op) == IF op.o = "-" THEN 0 ELSE Mx(OpIdx[op.o], op.a + 3 * op.b)
+HeadCode(h) == Mx(Mx(Mx(Mx(ActCode(h.a), h.i), h.i2 + h.b), KindCode(h.kind)), XferCode(h.xfer))
+CCode(ch) == Mx(Mx(HeadCode(ch), ViaCode(ch.via)), OpCode(ch.op))
+Kept(cd, n) == Keep(n) >= 1000 \/ (Mx(Mx(code, cd), 4001) % 1000) < Keep(n)
+Offered(n) == LET hs == {h \in Heads(n) : Kept(HeadCode(h), n)} IN
+              {h \in hs : h.a # "upd"} \cup UNION {{t \in Tails(h) : Kept(CCode(t), n)} : h \in {g \in hs : g.a = "upd"}}
 
 -----------------------------------------------------------------------------
 (* The state machine *)
@@ -422,7 +431,8 @@ InitAlias ==
   /\ \E b \in 1..Len(Bases[ty]) : \E kd \in KINDS0 : \E x \in (IF Th(kd) = 1 THEN {"chan", "capt"} ELSE {"-"}) :
         /\ al = <<Alias(Bases[ty][b].v, kd, 0)>>
         /\ hist = <<Choice("base", 0, 0, b, kd, "-", x, NoOp) @@ [j |-> 1]>>
-        /\ code = Mx(Mx(Mx(SEED % 9973, IdxIn(<<"hash", "hset", "ivec", "list", "str">>, ty)), b), IdxIn(KindSeq, kd) + 20 * IdxIn(<<"-", "chan", "capt">>, x))
+        /\ code = Mx(Mx(Mx(SEED % 9973, CASE ty = "hash" -> 1 [] ty = "hset" -> 2 [] ty = "ivec" -> 3 [] ty = "list" -> 4 [] ty = "str" -> 5), b),
+                     KindCode(kd) + 20 * XferCode(x))
   /\ k = 0
   /\ lp = [n |-> 0]
 
@@ -539,6 +549,6 @@ LoopCase ==
    saved |-> Force([x \in 1..Len(lp.saved) |-> [i |-> lp.saved[x].i, q |-> ObsQ(lp.saved[x].v), exp |-> ObsE(lp.saved[x].v)]]),
    final |-> Obs(lp.acc)]
 
-Terminal == IF fam = "loop" THEN lp.i = lp.n ELSE (k = DEPTH \/ Offered(k + 1) = {})
+Terminal == IF fam = "loop" THEN lp.i = lp.n ELSE k = DEPTH
 Emit == Terminal => PrintT(<<"REPLAY", ToJson(IF fam = "alias" THEN AliasCase ELSE LoopCase)>>)
 =============================================================================
